@@ -260,3 +260,64 @@ Proof. intros [H1 H2 _ _]. split; try discriminate; assumption. Qed.
 
 Lemma tiling_empty cl : tiling cl 0 [].
 Proof. split; reflexivity. Qed.
+
+(** ** increasing lists of intervals *)
+
+Lemma all_above_forall f l : all_above f l = true <-> forall a, In a l -> snd a = 0 \/ f <= fst a.
+Proof.
+  unfold all_above. rewrite forallb_forall. split; intros H a Ha; specialize (H a Ha).
+  - rewrite orb_true_iff in H. destruct H as [H|H]; [left; apply N.eqb_eq; exact H|right; apply N.leb_le; exact H].
+  - rewrite orb_true_iff. destruct H as [H|H]; [left; apply N.eqb_eq; exact H|right; apply N.leb_le; exact H].
+Qed.
+
+Lemma all_above_perm f l1 l2 : Permutation l1 l2 -> all_above f l1 = all_above f l2.
+Proof.
+  unfold all_above.
+  induction 1 as [|x l l' P IH|x y l|l l' l'' P1 IH1 P2 IH2]; cbn [forallb]; try congruence.
+  destruct ((snd y =? 0) || (f <=? fst y)), ((snd x =? 0) || (f <=? fst x)); reflexivity.
+Qed.
+
+Lemma all_above_rev f l : all_above f (rev l) = all_above f l.
+Proof. apply all_above_perm. apply Permutation_sym, Permutation_rev. Qed.
+
+(** appending an interval that lies above everything before it *)
+Lemma increasing_snoc l a : increasing l = true -> iv_maxhi l <= fst a -> increasing (l ++ [a]) = true.
+Proof.
+  induction l as [|b l IH]; cbn [app increasing iv_maxhi]; intros H Hm.
+  - reflexivity.
+  - apply andb_true_iff in H. destruct H as [H1 H2]. apply andb_true_iff. split.
+    + rewrite all_above_app, H1. cbn [andb]. apply all_above_forall. intros x [<-|[]]. right.
+      destruct (N.eqb_spec (snd b) 0); lia.
+    + apply IH; [assumption|]. destruct (snd b =? 0); lia.
+Qed.
+
+Lemma increasing_single a : increasing [a] = true.
+Proof. reflexivity. Qed.
+
+(** two consecutive intervals are increasing *)
+Lemma increasing_split b took cnt :
+  took <= cnt -> increasing ((if took =? 0 then [] else [(b, took)]) ++ [(b + took, cnt - took)]) = true.
+Proof.
+  intros H. destruct (N.eqb_spec took 0); cbn [app increasing all_above forallb fst snd iv_hi]; [reflexivity|].
+  destruct (N.eqb_spec took 0); [contradiction|]. unfold iv_hi. cbn [fst snd].
+  assert (b + took <=? b + took = true) as -> by (apply N.leb_le; lia). rewrite orb_true_r. reflexivity.
+Qed.
+
+Lemma all_above_split f b took cnt :
+  f <= b -> all_above f ((if took =? 0 then [] else [(b, took)]) ++ [(b + took, cnt - took)]) = true.
+Proof.
+  intros H. apply all_above_forall. intros a Ha. right.
+  destruct (N.eqb_spec took 0); cbn [app] in Ha.
+  - destruct Ha as [<-|[]]. cbn [fst]. lia.
+  - destruct Ha as [<-|[<-|[]]]; cbn [fst]; lia.
+Qed.
+
+Lemma iv_total_split b took cnt :
+  took <= cnt -> iv_total ((if took =? 0 then [] else [(b, took)]) ++ [(b + took, cnt - took)]) = cnt.
+Proof. intros H. destruct (N.eqb_spec took 0); cbn [app iv_total snd]; lia. Qed.
+
+Lemma in_within n l a : iv_within n l = true -> In a l -> snd a = 0 \/ iv_hi a <= n.
+Proof.
+  unfold iv_within. rewrite forallb_forall. intros H Ha. specialize (H a Ha).
+  rewrite orb_true_iff in H. destruct H as [H|H]; [left; apply N.eqb_eq; exact H|right; apply N.leb_le; exact H].
+Qed.
